@@ -197,3 +197,55 @@ func GetModelWith(o *Obligation, extra []string, timeoutS int) string {
 	}
 	return ""
 }
+
+// GetValues asks for the values of the given terms in a model of the failed obligation (with extra
+// assertions, e.g. size bounds).  Returns nil when no model is found.
+func GetValues(o *Obligation, extra []string, terms []string, timeoutS int) map[string]string {
+	d, err := os.MkdirTemp("", "fovcv")
+	if err != nil {
+		return nil
+	}
+	defer os.RemoveAll(d)
+	file := filepath.Join(d, "v.smt2")
+	q := strings.Join(extra, "\n") + "\n(check-sat)\n"
+	for _, t := range terms {
+		q += "(get-value (" + t + "))\n"
+	}
+	smt := "(set-option :produce-models true)\n" + strings.Replace(o.SMT, "(check-sat)\n", q, 1)
+	os.WriteFile(file, []byte(smt), 0o644)
+	for _, s := range [][]string{{"z3-new", fmt.Sprintf("-T:%d", timeoutS), file}, {"z3", fmt.Sprintf("-T:%d", timeoutS), file}} {
+		ctx, cancel := context.WithTimeout(context.Background(), time.Duration(timeoutS+2)*time.Second)
+		out, _ := exec.CommandContext(ctx, s[0], s[1:]...).CombinedOutput()
+		cancel()
+		lines := strings.Split(strings.TrimSpace(string(out)), "\n")
+		if len(lines) == 0 || strings.TrimSpace(lines[0]) != "sat" {
+			continue
+		}
+		res := map[string]string{}
+		rest := strings.Join(lines[1:], " ")
+		for _, t := range terms {
+			// ((term value))
+			k := "((" + t + " "
+			i := strings.Index(rest, k)
+			if i < 0 {
+				continue
+			}
+			j := i + len(k)
+			depth := 0
+			e := j
+			for ; e < len(rest); e++ {
+				if rest[e] == '(' {
+					depth++
+				} else if rest[e] == ')' {
+					if depth == 0 {
+						break
+					}
+					depth--
+				}
+			}
+			res[t] = strings.TrimSpace(rest[j:e])
+		}
+		return res
+	}
+	return nil
+}
